@@ -74,7 +74,7 @@ func runOne(seed uint64, prof profile, tape *rt.Tape, jb *job) (res runResult, r
 	}
 	var traceF *os.File
 	if jb.Trace != "" {
-		traceF, _ = os.OpenFile(jb.Trace, os.O_WRONLY|os.O_CREATE|os.O_APPEND, 0644)
+		traceF, _ = os.OpenFile(jb.Trace, os.O_WRONLY|os.O_CREATE|os.O_TRUNC, 0644)
 		fmt.Fprintf(traceF, "# seed %d\n", seed)
 		run.dbgOn = true
 		run.dbgF = func(m string) { fmt.Fprintf(traceF, "    # %s\n", m) }
